@@ -87,6 +87,7 @@ class SimRun:
             sus, asg = orig_algo(s, results, pipelines)
             pending['susp'] = [(cid(x.container_id), x.pool_id) for x in sus]
             pending['asg'] = [([w.gid[o] for o in a.ops], a.cpu, a.ram, PRIO_VAL[a.priority], a.pool_id) for a in asg]
+            pending['asg_tick'] = len(me.ticks)       # the tick these decisions are for (not yet executed)
             for a in asg:
                 for o in a.ops:
                     k = (w.gid[o], a.cpu)
@@ -96,6 +97,7 @@ class SimRun:
 
         def rec_tick(ex, suspensions, assignments):
             pending['pre_states'] = w.states()
+            pending['pre_tick'] = len(me.ticks)
             res = orig_tick(ex, suspensions, assignments)
             me.ticks.append(dict(
                 susp=pending.get('susp', []), asg=pending.get('asg', []), pre_states=pending.get('pre_states'),
@@ -446,6 +448,80 @@ def gen_failready(rng, algo, gen='G-sim-failready'):
     arrivals.sort(key=lambda x: x[0])
     return dict(gen=gen, algo=algo, tps=tps, over=1 if algo == 'overbook' else 0, multi=0, npools=npools, cpu=cpu,
                 ram=ram, duration=nticks / tps, pipes=pipes, segs=segs, arrivals=arrivals)
+
+
+def gen_failbranch(rng, algo='naive', gen='G-sim-failbranch'):
+    """single-operator containers, 2-3 pools; a pipeline with two branches A -> B and C -> F where F runs out of
+    memory at once while the slow A is still running; short fillers and a long-running late pipeline compete for the
+    pool F frees, so the pipeline is sometimes NOT looked at between the failure of F and the moment B becomes ready
+    (B is listed before F): the first time the scheduler sees it again it holds a FAILED operator and a ready PENDING
+    operator in front of it"""
+    tps = rng.choice([1, 2, 10])
+    npools = rng.choice([2, 2, 3])
+    cpu = rng.choice([2, 4])
+    ram = rng.choice([10, 20, 40])
+    nticks = rng.choice([60, 90])
+    pipes, segs, arrivals = [], [], []
+
+    def seg(t, m):
+        return dict(baseline_cpu_seconds=float(t) / tps, cpu_scaling='const', storage_read_gb=0.0, memory_gb=float(m))
+    small = rng.choice([0.25, 0.5, 1])
+    for k in range(rng.randint(1, 2)):
+        a = [seg(rng.randint(12, 25), small)]
+        b = [seg(rng.randint(2, 8), small)]
+        c = [seg(rng.randint(1, 2), small)]
+        f = [seg(1, small), seg(2, ram * 2)] if rng.random() < 0.5 else [seg(2, ram * 2)]
+        if rng.random() < 0.5:
+            dag, ops = [[], [0], [], [2]], [a, b, c, f]          # A, B, C, F
+        else:
+            dag, ops = [[], [], [0], [1]], [a, c, b, f]          # A, C, B, F (level by level)
+        pipes.append((rng.choice([1, 2, 3]), dag))
+        segs.append(ops)
+        arrivals.append((0, len(pipes) - 1))
+    for k in range(rng.randint(1, 2)):                           # short fillers arriving with it
+        pipes.append((rng.choice([2, 3]), [[]]))
+        segs.append([[seg(rng.randint(1, 2), small)]])
+        arrivals.append((0, len(pipes) - 1))
+    for k in range(rng.randint(1, 3)):                           # late, long-running pipelines
+        pipes.append((rng.choice([2, 3]), [[]]))
+        segs.append([[seg(rng.randint(15, 40), small)]])
+        arrivals.append((rng.randint(1, 8), len(pipes) - 1))
+    arrivals.sort(key=lambda x: x[0])
+    return dict(gen=gen, algo=algo, tps=tps, over=0, multi=0, npools=npools, cpu=cpu, ram=ram, duration=nticks / tps,
+                pipes=pipes, segs=segs, arrivals=arrivals)
+
+
+def gen_twin_preempt(rng, gen='G-sim-twin-preempt'):
+    """priority scheduler, multi-operator containers: every pool is filled exactly (ten containers of a tenth of the
+    pool each) by chains of one-tick operators, so every tick is an operator boundary for all of them; more queries
+    than pools arrive together while nothing is free, so two containers of ONE pool are suspended in the same round
+    and (equal allocations) their write-outs end in the same tick; fresh batch pipelines arrive around that tick and
+    compete with the resumed work"""
+    tps = rng.choice([1, 2, 10])
+    npools = rng.choice([1, 1, 2])
+    cpu, ram = 10, rng.choice([20, 100, 200])
+    nticks = rng.choice([40, 60])
+    share = ram / 10
+    pipes, segs, arrivals = [], [], []
+
+    def chain(n, prio, at, mem):
+        pipes.append((prio, [[j - 1] if j else [] for j in range(n)]))
+        segs.append([[dict(baseline_cpu_seconds=1.0 / tps, cpu_scaling='const', storage_read_gb=0.0,
+                           memory_gb=float(mem))] for _ in range(n)])
+        arrivals.append((at, len(pipes) - 1))
+    mem = share * rng.choice([0.25, 0.5])
+    ni = rng.randint(2, 4)
+    for k in range(10 * npools):
+        chain(rng.randint(8, 20), 2 if k < ni * npools else 3, 0, mem)
+    tq = rng.randint(1, 4)
+    for q in range(rng.randint(npools + 1, 2 * npools + 2)):
+        chain(rng.randint(1, 3), 1, tq, mem)
+    d = max(1, int(share / 20 * tps))
+    for k in range(rng.randint(1, 4)):
+        chain(rng.randint(1, 4), 3, tq + d + rng.randint(0, 3), mem)
+    arrivals.sort(key=lambda a: a[0])
+    return dict(gen=gen, algo='priority', tps=tps, over=0, multi=1, npools=npools, cpu=cpu, ram=ram,
+                duration=nticks / tps, pipes=pipes, segs=segs, arrivals=arrivals)
 
 
 def gen_ppool_stuck(rng, gen='G-sim-ppool-stuck'):
